@@ -73,7 +73,24 @@ type loopInfo struct {
 	seenKey  string // ghost "seen" set for map ranges
 }
 
+// inlineCtx: the function currently being symbolically executed is an uncontracted callee inlined into g.key
+type inlineCtx struct {
+	prefix      string
+	callerBlock *ssa.BasicBlock
+	entryReach  string
+	rets        []inlineRet
+	depth       int
+}
+
+type inlineRet struct {
+	reach string
+	st    *state
+	vals  []Val
+}
+
 type gen struct {
+	inl        *inlineCtx
+	inlineSeq  int
 	entryMeasure string // value of the contract's `decreases` measure at entry (recursive functions)
 	depthFacts   bool   // emit the well-foundedness facts of syntax trees (astdepth) with the theory ast-valid
 	e    *Engine
@@ -270,11 +287,11 @@ func (g *gen) heapSet(key, sort, term string) {
 	}
 	n := g.define("H_"+key, sort, term)
 	g.cur.heap[key] = n
-	if g.curBlock != nil {
-		w := g.written[g.curBlock]
+	if wb := g.wblock(); wb != nil {
+		w := g.written[wb]
 		if w == nil {
 			w = map[string]bool{}
-			g.written[g.curBlock] = w
+			g.written[wb] = w
 		}
 		w[key] = true
 	}
@@ -364,11 +381,11 @@ func (g *gen) heapHavoc(key string) {
 	}
 	if !ok {
 		// never touched by this function: remember as written for loop mod sets, nothing else to do
-		if g.curBlock != nil {
-			w := g.written[g.curBlock]
+		if wb := g.wblock(); wb != nil {
+			w := g.written[wb]
 			if w == nil {
 				w = map[string]bool{}
-				g.written[g.curBlock] = w
+				g.written[wb] = w
 			}
 			w[key] = true
 		}
@@ -377,11 +394,11 @@ func (g *gen) heapHavoc(key string) {
 	n := g.freshName("Hv_" + key)
 	g.declare(n, sort)
 	g.cur.heap[key] = n
-	if g.curBlock != nil {
-		w := g.written[g.curBlock]
+	if wb := g.wblock(); wb != nil {
+		w := g.written[wb]
 		if w == nil {
 			w = map[string]bool{}
-			g.written[g.curBlock] = w
+			g.written[wb] = w
 		}
 		w[key] = true
 	}
@@ -1100,12 +1117,28 @@ func (g *gen) rpo() []*ssa.BasicBlock {
 	return order
 }
 
+// blkPrefix keeps the block-derived names of an inlined callee apart from the caller's
+func (g *gen) blkPrefix() string {
+	if g.inl != nil {
+		return g.inl.prefix
+	}
+	return ""
+}
+
+// wblock: the block of the function under verification that heap writes are attributed to (loop mod-sets)
+func (g *gen) wblock() *ssa.BasicBlock {
+	if g.inl != nil {
+		return g.inl.callerBlock
+	}
+	return g.curBlock
+}
+
 func (g *gen) isBackEdge(from, to *ssa.BasicBlock) bool {
 	return to.Dominates(from)
 }
 
 func (g *gen) edgeName(from, to *ssa.BasicBlock) string {
-	return fmt.Sprintf("edge_b%d_b%d", from.Index, to.Index)
+	return fmt.Sprintf("%sedge_b%d_b%d", g.blkPrefix(), from.Index, to.Index)
 }
 
 // ---------------------------------------------------------------------------
@@ -1210,7 +1243,9 @@ func (g *gen) block(b *ssa.BasicBlock) {
 		ins = append(ins, inEdge{p, g.edgeName(p, b)})
 	}
 	var reach string
-	if b.Index == 0 {
+	if b.Index == 0 && g.inl != nil {
+		reach = g.inl.entryReach
+	} else if b.Index == 0 {
 		reach = "true"
 	} else {
 		var cs []string
@@ -1221,7 +1256,7 @@ func (g *gen) block(b *ssa.BasicBlock) {
 			// unreachable (e.g. code after panic)
 			return
 		}
-		reach = fmt.Sprintf("reach_b%d", b.Index)
+		reach = fmt.Sprintf("%sreach_b%d", g.blkPrefix(), b.Index)
 		g.emit("(define-fun %s () Bool %s)", reach, or(cs...))
 	}
 	g.reach[b] = reach
